@@ -234,7 +234,7 @@ def r7(ctx, R):
     w = f'{SH}:filter_stats'
     R.fn(w)
     # (a) highest generation per type
-    acc = [s for s in ast.walk(fs) if isinstance(s, ast.Assign) and isinstance(s.targets[0], ast.Subscript) and ast.unparse(s.targets[0].slice) == 'me.type' and 'num_restarts' in ast.unparse(s.value) and 'max(' in ast.unparse(s.value)]
+    acc = [s for s in ast.walk(fs) if isinstance(s, ast.Assign) and isinstance(s.targets[0], ast.Subscript) and ast.unparse(s.targets[0].slice) == 'me.type' and re.fullmatch(r'max\(\[?(\w+)\.get\(me\.type, 0\), me\.num_restarts\]?\)|max\(\[?me\.num_restarts, (\w+)\.get\(me\.type, 0\)\]?\)', ast.unparse(s.value))]
     R.check(len(acc) == 1, 'filter_stats :: the highest restart generation is tracked per record type', w, 'restarts[me.type] = max([restarts.get(me.type, 0), me.num_restarts])', [ast.unparse(s) for s in acc])
     # (b) pops are restricted to that type and to strictly lower generations
     inner = [c for c in ast.walk(fs) if isinstance(c, ast.Call) and ast.unparse(c.func) == 'filter_stats' and {'type', 'num_restarts'} <= {k.arg for k in c.keywords}]
@@ -252,3 +252,41 @@ def r7(ctx, R):
     tr = [s for s in ast.walk(fs) if isinstance(s, ast.Assign) and ast.unparse(s.targets[0]) == 'times_restarted']
     ok = len(tr) == 1 and ast.unparse(tr[0].value) == 'np.unique([me.time for me in result.keys() if me.num_restarts > 0])'
     R.check(ok, 'filter_stats :: only times that carry a restarted record are revisited', w, 'np.unique([me.time for me in result.keys() if me.num_restarts > 0])', [ast.unparse(s.value) for s in tr])
+
+
+@rule('C14', 'C14.R8', 'LogWork: the baseline of every work counter is taken at the pre_step of THIS step (level 0, unconditionally) and is moved by nothing else; the record is current - baseline', floor=3)
+def r8(ctx, R):
+    repo = ctx.repo
+    rel = 'pySDC/implementations/hooks/log_work.py'
+    ci = repo.cls(rel, 'LogWork')
+    store = re.compile(r'self\.(_LogWork)?__work_last_step')
+    writes = {}
+    for name, fn in ci.methods.items():
+        for s in ast.walk(fn):
+            tg = s.targets if isinstance(s, ast.Assign) else [s.target] if isinstance(s, (ast.AugAssign, ast.AnnAssign)) else []
+            for t in tg:
+                if isinstance(t, ast.Subscript) and store.match(ast.unparse(t)):
+                    writes.setdefault(name, []).append(s)
+            if isinstance(s, ast.Call) and isinstance(s.func, ast.Attribute) and s.func.attr in ('update', 'setdefault', 'pop', 'clear') and store.match(ast.unparse(s.func.value)):
+                writes.setdefault(name, []).append(s)
+    w = f'{rel}:LogWork'
+    R.fn(w)
+    R.check(sorted(writes) == ['pre_step'] and len(writes['pre_step']) == 1, 'LogWork :: the baseline store is written in pre_step only', w, {'pre_step': 1}, {k: len(v) for k, v in writes.items()})
+    if 'pre_step' in writes:
+        fn = ci.methods['pre_step']
+        cfg = FuncCFG(fn)
+        s = writes['pre_step'][0]
+        node = next((n for n, st in cfg.stmt_of.items() if st is s), None)
+        if node is None:
+            raise AnalysisError('LogWork.pre_step: baseline write is not a statement of the method')
+        g = sorted(ast.unparse(t) if p else f'not ({ast.unparse(t)})' for t, p in cfg.guards[id(s)])
+        tgt = ast.unparse(s.targets[0]) if isinstance(s, ast.Assign) else ''
+        val = ast.unparse(s.value) if isinstance(s, ast.Assign) else ''
+        ok = g == ['level_number == 0'] and store.sub('S', tgt) == 'S[step.status.slot]' and '.niter' in val and 'range(len(step.levels))' in val and 'work_counters.keys()' in val
+        R.check(ok, 'LogWork.pre_step :: every pre_step of level 0 snapshots all counters of all levels for its slot', f'{w}.pre_step', 'if level_number == 0: S[slot] = [{key: counter.niter ...} for every level]', {'guards': g, 'target': tgt, 'value': val[:120]})
+    fn = ci.methods.get('post_step')
+    if fn is None:
+        raise AnalysisError('LogWork.post_step vanished')
+    vals = [ast.unparse(k.value) for c in _record_calls(fn) for k in c.keywords if k.arg == 'value']
+    ok = len(vals) == 1 and store.sub('S', vals[0]) == 'L.prob.work_counters[key].niter - S[step.status.slot][level_number][key]'
+    R.check(ok, 'LogWork.post_step :: recorded work = counter now - counter at the pre_step of this slot and level', f'{w}.post_step', 'L.prob.work_counters[key].niter - S[step.status.slot][level_number][key]', vals)
